@@ -55,19 +55,36 @@ func u16f(name string, field uint8, ctor func(uint16) *of.MatchField) FieldGen {
 		return ctor(v), oxmNode(cOF, field, be16b(v), nil)
 	}}
 }
+// The address constructors take their value (and mask) by reference. A caller
+// builds several fields from one address object - the same host in a /24 rule
+// and in an exact-match rule -, so in a third of the cases the same objects are
+// first handed to the constructor with another mask and that field is thrown
+// away; the wire expectation is taken from copies made before any call.
 func macf(name string, class uint16, field uint8, ctor func(net.HardwareAddr, *net.HardwareAddr) *of.MatchField) FieldGen {
 	return FieldGen{name, true, func(g *G) (*of.MatchField, *spec.Node) {
 		v := g.MAC("v")
+		vw := cp(v)
+		if g.Chance("address_object_used_before", 1, 3) {
+			om := g.MAC("other_mask")
+			ctor(v, &om)
+			g.Label("address_object_used_for_another_field_first")
+		}
 		if g.Bool("masked") {
 			m := g.MAC("m")
-			return ctor(v, &m), oxmNode(class, field, v, m)
+			n := oxmNode(class, field, vw, cp(m))
+			return ctor(v, &m), n
 		}
-		return ctor(v, nil), oxmNode(class, field, v, nil)
+		return ctor(v, nil), oxmNode(class, field, vw, nil)
 	}}
 }
 func ip4f(name string, class uint16, field uint8, ctor func(net.IP, *net.IP) *of.MatchField) FieldGen {
 	return FieldGen{name, true, func(g *G) (*of.MatchField, *spec.Node) {
 		v, vw := g.IPv4("v")
+		if g.Chance("address_object_used_before", 1, 3) {
+			om, _ := g.IPv4("other_mask")
+			ctor(v, &om)
+			g.Label("address_object_used_for_another_field_first")
+		}
 		if g.Bool("masked") {
 			m, mw := g.IPv4("m")
 			return ctor(v, &m), oxmNode(class, field, vw, mw)
@@ -78,6 +95,11 @@ func ip4f(name string, class uint16, field uint8, ctor func(net.IP, *net.IP) *of
 func ip6f(name string, field uint8, ctor func(net.IP, *net.IP) *of.MatchField) FieldGen {
 	return FieldGen{name, true, func(g *G) (*of.MatchField, *spec.Node) {
 		v, vw := g.IPv6("v")
+		if g.Chance("address_object_used_before", 1, 3) {
+			om, _ := g.IPv6("other_mask")
+			ctor(v, &om)
+			g.Label("address_object_used_for_another_field_first")
+		}
 		if g.Bool("masked") {
 			m, mw := g.IPv6("m")
 			return ctor(v, &m), oxmNode(cOF, field, vw, mw)
